@@ -236,10 +236,8 @@ class Prover:
             if F is None and rv["r"] == "bin" and rv["op"].replace("Unchecked", "") == "Add":
                 fa, fb = self.form(rv["a"], at=idef[0]), self.form(rv["b"], at=idef[0])
                 F = fa.add(fb) if fa is not None and fb is not None else None
-            if F is None or any(x[0] == l for x in F.caps):
-                return []
-            if F.caps and not all(self._cap_ok_at(x, b, idef[0]) for x, b in F.caps):
-                return []
+            if F is None or F.caps:
+                return []      # the initial value must be built from stable quantities only: the invariant outlives the loop
             x = Form(0, {a: Fraction(1)})
             kinds = {st[0] for _, st in steps}
             blocks = [d[0] for d, _ in steps]
